@@ -1158,3 +1158,307 @@ Proof.
       rewrite !be16_rd16 by assumption. rewrite be32_rd32 by assumption.
       subst t. unfold TRANS_ASN. repeat split; reflexivity.
 Qed.
+
+(* ------------------------------------------------------------------ both ends compute the same session parameters *)
+Lemma memN_In x l : memN x l = true <-> In x l.
+Proof.
+  unfold memN. rewrite existsb_exists. split.
+  - intros [y [Hy E]]. apply N.eqb_eq in E. subst. exact Hy.
+  - intros H. exists x. split; [exact H | apply N.eqb_refl].
+Qed.
+
+Lemma In_dedup x l : In x (dedup l) <-> In x l.
+Proof.
+  induction l as [|y l IH]; [tauto|]. cbn [dedup].
+  destruct (memN y l) eqn:E.
+  - rewrite IH. cbn [In]. split; [tauto|]. intros [-> | H]; [apply memN_In; exact E | exact H].
+  - cbn [In]. rewrite IH. tauto.
+Qed.
+
+Lemma NoDup_dedup l : NoDup (dedup l).
+Proof.
+  induction l as [|y l IH]; [constructor|]. cbn [dedup].
+  destruct (memN y l) eqn:E; [exact IH|]. constructor; [|exact IH].
+  rewrite In_dedup. intros H. apply memN_In in H. congruence.
+Qed.
+
+Definition common (l r : list cap) : list N := filter (fun f => memN f (mp_fams l)) (dedup (mp_fams r)).
+
+Lemma In_common f l r : In f (common l r) <-> In f (mp_fams l) /\ In f (mp_fams r).
+Proof. unfold common. rewrite filter_In, In_dedup, memN_In. tauto. Qed.
+
+Lemma fam_state_map (g : N -> fstate) keys f :
+  fam_state (map (fun k => (k, g k)) keys) f = if memN f keys then Some (g f) else None.
+Proof.
+  induction keys as [|k keys IH]; [reflexivity|]. cbn [map fam_state memN existsb].
+  fold (memN f keys). rewrite IH. rewrite (N.eqb_sym f k).
+  destruct (k =? f) eqn:E; [apply N.eqb_eq in E; subst; reflexivity | reflexivity].
+Qed.
+
+Lemma memN_common f l r : memN f (common l r) = memN f (common r l).
+Proof.
+  destruct (memN f (common l r)) eqn:E1, (memN f (common r l)) eqn:E2; try reflexivity.
+  - apply memN_In, In_common in E1. assert (H : In f (common r l)) by (apply In_common; tauto).
+    apply memN_In in H. congruence.
+  - apply memN_In, In_common in E2. assert (H : In f (common l r)) by (apply In_common; tauto).
+    apply memN_In in H. congruence.
+Qed.
+
+
+(* C04: the codec the peer negotiates from the same two capability lists reads with the
+   parameters the sender writes with: same maximum message size, same AS number width,
+   same families, the sender's "send path ids" is the receiver's "expect path ids", and the
+   RFC 8950 switch agrees. *)
+Theorem C04_peer_codec_agrees :
+  forall (l r : list cap) (f : N),
+    max_len (negotiate l r) = max_len (negotiate r l) /\
+    two_byte (negotiate l r) = two_byte (negotiate r l) /\
+    negotiated (negotiate l r) f = negotiated (negotiate r l) f /\
+    addpath_for (negotiate l r) f = addpath_rx_for (negotiate r l) f /\
+    ext_nh (negotiate l r) = ext_nh (negotiate r l).
+Proof.
+  intros l r f. unfold max_len, negotiated, addpath_for, addpath_rx_for, negotiate.
+  cbn [ext_len two_byte fams ext_nh]. fold (common l r) (common r l).
+  rewrite !fam_state_map. rewrite (memN_common f l r).
+  split; [rewrite andb_comm; reflexivity|].
+  split; [rewrite andb_comm; reflexivity|].
+  split; [destruct (memN f (common r l)); reflexivity|].
+  split.
+  - destruct (memN f (common r l)); [|reflexivity]. cbn [addpath_tx addpath_rx]. apply andb_comm.
+  - destruct (existsb (fun f0 => extnh_of f0 l && extnh_of f0 r) (common l r)) eqn:E1,
+             (existsb (fun f0 => extnh_of f0 r && extnh_of f0 l) (common r l)) eqn:E2; try reflexivity.
+    + apply existsb_exists in E1 as [x [Hx Hb]]. rewrite andb_comm in Hb.
+      assert (H : existsb (fun f0 => extnh_of f0 r && extnh_of f0 l) (common r l) = true).
+      { apply existsb_exists. exists x. split; [apply In_common; apply In_common in Hx; tauto | exact Hb]. }
+      congruence.
+    + apply existsb_exists in E2 as [x [Hx Hb]]. rewrite andb_comm in Hb.
+      assert (H : existsb (fun f0 => extnh_of f0 l && extnh_of f0 r) (common l r) = true).
+      { apply existsb_exists. exists x. split; [apply In_common; apply In_common in Hx; tauto | exact Hb]. }
+      congruence.
+Qed.
+
+(* ------------------------------------------------------------------ RFC 6793: AS4_PATH *)
+Lemma seg_hops_down s : seg_hops (seg_down s) = seg_hops s.
+Proof. unfold seg_hops, seg_down. cbn [fst snd]. unfold len. now rewrite map_length. Qed.
+
+Lemma hops_down l : hops (map seg_down l) = hops l.
+Proof. induction l as [|s l IH]; [reflexivity|]. cbn [map hops]. now rewrite seg_hops_down, IH. Qed.
+
+Lemma hops_strip l : hops (filter not_confed l) = hops l.
+Proof.
+  induction l as [|s l IH]; [reflexivity|]. cbn [filter hops].
+  unfold not_confed at 1, seg_confed. destruct (fst s =? 3) eqn:E3; cbn [orb negb].
+  - rewrite IH. unfold seg_hops. apply N.eqb_eq in E3. rewrite E3. cbn. lia.
+  - destruct (fst s =? 4) eqn:E4; cbn [negb].
+    + rewrite IH. unfold seg_hops. apply N.eqb_eq in E4. rewrite E4. cbn. lia.
+    + cbn [hops]. now rewrite IH.
+Qed.
+
+Lemma take_hops_0 l : take_hops 0 l = [].
+Proof. destruct l; reflexivity. Qed.
+
+(* What attrs_2byte writes for an AS_PATH is the RFC 6793 4.2.2 pair: the path with every AS
+   number that needs four octets replaced by AS_TRANS, plus -- only when there is such a
+   number -- an AS4_PATH with the non-confederation segments; reconstructing by RFC 6793
+   4.2.3 gives back the AS4_PATH, which is the original path when it has no confederation
+   segment; without wide AS numbers the down-converted path is the original one. *)
+Theorem C04_as4_path_roundtrip :
+  forall (a : attr) (b : list N) (w : list attr),
+    a_code a = 2 -> a_binary a = Some b -> attrs_2byte a = Ok w ->
+    exists segs,
+      segs_of b = Ok segs /\
+      (existsb seg_wide segs = false ->
+         w = [mk_bin 2 (flat_map enc_seg2 segs)] /\ map seg_down segs = segs) /\
+      (existsb seg_wide segs = true ->
+         w = [mk_bin 2 (flat_map enc_seg2 segs); mk_bin 17 (flat_map enc_seg4 (filter not_confed segs))] /\
+         as4_reconcile (map seg_down segs) (filter not_confed segs) = filter not_confed segs /\
+         (forallb not_confed segs = true -> as4_reconcile (map seg_down segs) (filter not_confed segs) = segs)).
+Proof.
+  intros a b w Hc Hb H. unfold attrs_2byte in H. rewrite Hc, Hb in H. cbn [N.eqb Pos.eqb] in H.
+  apply bind_ok in H as [segs [Hs H]]. exists segs. split; [exact Hs|].
+  assert (Hrec : as4_reconcile (map seg_down segs) (filter not_confed segs) = filter not_confed segs).
+  { unfold as4_reconcile. rewrite hops_down, hops_strip, N.ltb_irrefl, N.sub_diag, take_hops_0. reflexivity. }
+  split.
+  - intros Hw. rewrite Hw in H. apply Ok_inj in H. split; [symmetry; exact H|].
+    clear - Hw. induction segs as [|s segs IH]; [reflexivity|].
+    cbn [existsb] in Hw. apply orb_false_iff in Hw as [Hs Hr]. cbn [map]. rewrite IH by exact Hr. f_equal.
+    destruct s as [t asns]. unfold seg_down, seg_wide in *. cbn [fst snd] in *. f_equal.
+    induction asns as [|x asns IHa]; [reflexivity|]. cbn [existsb map] in *.
+    apply orb_false_iff in Hs as [Hx Hr']. rewrite IHa by exact Hr'. unfold as2. rewrite Hx. reflexivity.
+  - intros Hw. rewrite Hw in H. apply Ok_inj in H. split; [symmetry; exact H|]. split; [exact Hrec|].
+    intros Hnc. rewrite Hrec. clear - Hnc. induction segs as [|s segs IH]; [reflexivity|].
+    cbn [forallb] in Hnc. apply andb_prop in Hnc as [Hs Hr]. cbn [filter]. rewrite Hs, IH by exact Hr. reflexivity.
+Qed.
+
+(* ------------------------------------------------------------------ control messages and End-of-RIB *)
+
+(* C04 (2): the header length field of every emitted frame is the length of the frame and its
+   type is the message's type; an End-of-RIB is an UPDATE whose inner lengths are consistent
+   and which carries nothing (IPv4) or exactly an empty MP_UNREACH_NLRI of the family. *)
+Theorem C04_frame_lengths_consistent :
+  forall (p : profile) (c : codec) (m : msg) (frames : list (list N)),
+    encode_to p c m = Ok frames ->
+    Forall (fun fr => exists body, read_frame (max_len c) fr = Some (msg_type m, body)) frames.
+Proof.
+  intros p c m frames H. pose proof (max_len_le c) as Hmax. unfold encode_to in H.
+  assert (Hty : forall es fr n, do_encode p c m es = Ok (fr, n) -> exists body, fr = frame_of (msg_type m :: body)).
+  { intros es fr n Hd. unfold do_encode in Hd.
+    destruct m as [asn hold rid caps | f nh attrs es0 | f es0 | f | code sub data | | f]; cbn [msg_type].
+    - destruct caps.
+      + apply Ok_inj in Hd. inversion Hd; subst. cbn [app]. eauto.
+      + apply bind_ok in Hd as [r [_ Hd]].
+        destruct (255 <? snd r + 2); [discriminate|]. apply Ok_inj in Hd. inversion Hd; subst. cbn [app]. eauto.
+    - apply bind_ok in Hd as [r [_ Hd]].
+      destruct ((f =? F_IPV4) && negb (ext_nh c)).
+      + apply bind_ok in Hd as [r2 [_ Hd]]. apply bind_ok in Hd as [n0 [_ Hd]].
+        apply Ok_inj in Hd. inversion Hd; subst. cbn [app]. eauto.
+      + apply bind_ok in Hd as [[[mpb mpl] cnt] [_ Hd]]. apply Ok_inj in Hd. inversion Hd; subst. cbn [app]. eauto.
+    - destruct ((f =? F_IPV4) && negb (ext_nh c)).
+      + apply bind_ok in Hd as [n0 [_ Hd]]. apply Ok_inj in Hd. inversion Hd; subst. cbn [app]. eauto.
+      + apply bind_ok in Hd as [[[mpb mpl] cnt] [_ Hd]]. apply Ok_inj in Hd. inversion Hd; subst. cbn [app]. eauto.
+    - destruct (f =? F_IPV4).
+      + apply Ok_inj in Hd. inversion Hd; subst. eauto.
+      + apply bind_ok in Hd as [[[mpb mpl] cnt] [_ Hd]]. apply bind_ok in Hd as [al [_ Hd]].
+        apply Ok_inj in Hd. inversion Hd; subst. cbn [app]. eauto.
+    - destruct (notif_norm code sub data) as [[c' s'] d']. apply Ok_inj in Hd. inversion Hd; subst. cbn [app]. eauto.
+    - apply Ok_inj in Hd. inversion Hd; subst. eauto.
+    - apply Ok_inj in Hd. inversion Hd; subst. cbn [app]. eauto. }
+  destruct (enc_loop_inv p c m (fun _ => True)
+              (fun fr _ => exists body, read_frame (max_len c) fr = Some (msg_type m, body)))
+    with (fuel := S (length (entries_of m))) (es := entries_of m) (frames := frames) as [chunks [_ HF]]; auto.
+  - intros es fr n _ Hd Hlen. destruct (Hty _ _ _ Hd) as [body ->]. exists body.
+    apply read_frame_of; [| exact Hmax]. rewrite len_frame_of in Hlen. exact Hlen.
+  - clear - HF. induction HF; constructor; assumption.
+Qed.
+
+Theorem C04_eor_frame :
+  forall (p : profile) (c : codec) (f : N) (frames : list (list N)),
+    encode_to p c (MEor f) = Ok frames -> fam_ok f ->
+    exists fr body u,
+      frames = [fr] /\ read_frame (max_len c) fr = Some (2, body) /\ read_update body = Some u /\
+      u_withdrawn u = [] /\ u_nlri u = [] /\
+      (if f =? F_IPV4 then u_attrs u = []
+       else exists t, u_attrs u = [t] /\ is_code 15 t = true /\ read_mp_unreach (snd t) = Some (f, [])).
+Proof.
+  intros p c f frames H Hfam. pose proof (max_len_le c) as Hmax.
+  unfold encode_to in H. cbn [entries_of length enc_loop] in H.
+  apply bind_ok in H as [[fr n] [Hd H]]. cbn [fst snd] in H.
+  destruct (max_len c <? len fr) eqn:Hlt; [discriminate|]. apply N.ltb_ge in Hlt.
+  rewrite skipn_nil in H. apply Ok_inj in H. subst frames.
+  cbn [do_encode] in Hd. destruct (f =? F_IPV4) eqn:E4.
+  - apply Ok_inj in Hd. inversion Hd; subst fr n. clear Hd.
+    exists (frame_of [2; 0; 0; 0; 0]), [0; 0; 0; 0]. eexists. split; [reflexivity|].
+    split; [apply read_frame_of; [rewrite len_frame_of in Hlt; exact Hlt | exact Hmax]|].
+    split; [reflexivity|]. repeat split; reflexivity.
+  - apply bind_ok in Hd as [[[mpb mp_len] cnt] [Hmp Hd]]. apply bind_ok in Hd as [al [Hal Hd]].
+    assert (Hfr : fr = frame_of ([2; 0; 0] ++ be16 al ++ mpb)) by (apply Ok_inj in Hd; inversion Hd; reflexivity).
+    clear Hd.
+    assert (Hl : len fr = 18 + (5 + len mpb)).
+    { rewrite Hfr, len_frame_of, !len_app, len_be16. change (len [2; 0; 0]) with 3. lia. }
+    destruct (mp_unreach_spec _ _ _ _ _ _ _ _ Hmp ltac:(lia)) as [bs [HF [Hmpb Hmpl]]].
+    assert (Hbs : bs = []).
+    { destruct cnt; cbn [firstn] in HF; inversion HF; reflexivity. }
+    subst bs. cbn [concat] in Hmpb. rewrite app_nil_r in Hmpb.
+    unfold add16, wrapping in Hal. rewrite N.add_0_l in Hal.
+    replace (mp_len <? 65536) with true in Hal by (symmetry; apply N.ltb_lt; lia).
+    apply Ok_inj in Hal. subst al.
+    set (value := be16 (afi f) ++ [safi f]) in *.
+    assert (Hfr' : fr = frame_of (2 :: be16 (blen []) ++ [] ++ be16 (blen (concat (map tlv_bytes [(144, 15, value)]))) ++
+                                  concat (map tlv_bytes [(144, 15, value)]) ++ [])).
+    { rewrite Hfr, Hmpl. cbn [map concat]. rewrite !app_nil_r, <- Hmpb. reflexivity. }
+    exists fr. eexists. eexists. split; [reflexivity|].
+    pose proof Hlt as Hlt'. rewrite Hfr' in Hlt'. rewrite Hfr'.
+    split; [apply read_frame_of; [rewrite len_frame_of in Hlt'; exact Hlt' | exact Hmax]|].
+    split.
+    + apply read_update_built.
+      * cbn; lia.
+      * constructor; [|constructor]. cbn [tlv_ok]. change (N.testbit 144 4) with true. cbn iota. subst value. cbn. lia.
+      * cbn [map concat]. rewrite app_nil_r, <- Hmpb. change (blen mpb) with (len mpb). lia.
+    + cbn [u_withdrawn u_nlri u_attrs]. repeat split.
+      exists (144, 15, value). repeat split. subst value. cbn [snd].
+      rewrite <- (app_nil_r [safi f]). apply read_mp_unreach_built. exact Hfam.
+Qed.
+
+(* ------------------------------------------------------------------ non-vacuity: the hypotheses of the theorems are met by
+   non-trivial values (a Reach split over two frames, a withdrawal split over two frames,
+   an OPEN with several capabilities, a two-octet-AS session with wide AS numbers) *)
+Definition plainb (mb : N) (e : pnlri) : bool :=
+  (fst e <? 4294967296) &&
+  match snd e with
+  | NV4 m a | NV6 m a => (m <=? mb) && (m <? 256) && ((m + 7) / 8 <=? blen a)
+  | _ => false
+  end.
+Lemma plainb_ok mb e : plainb mb e = true -> plain mb e.
+Proof.
+  unfold plainb, plain. intros H. apply andb_prop in H as [H1 H2]. apply N.ltb_lt in H1. split; [exact H1|].
+  destruct (snd e); try discriminate;
+    apply andb_prop in H2 as [H2 H3]; apply andb_prop in H2 as [H2 H4];
+    apply N.leb_le in H2; apply N.ltb_lt in H4; apply N.leb_le in H3; auto.
+Qed.
+Lemma plain_all mb es : forallb (plainb mb) es = true -> Forall (plain mb) es.
+Proof.
+  intros H. apply Forall_forall. intros e He. apply plainb_ok. rewrite forallb_forall in H. apply H. exact He.
+Qed.
+
+Definition ex_codec : codec :=
+  negotiate [CMultiProtocol F_IPV4; CMultiProtocol F_IPV6; CAddPath [(F_IPV6, 2)]; CFourOctet 65001]
+            [CMultiProtocol F_IPV4; CMultiProtocol F_IPV6; CAddPath [(F_IPV6, 1)]].
+Definition ex_attrs : list attr :=
+  [ {| a_code := 1; a_flags := 64; a_data := AVal 0 |};
+    {| a_code := 2; a_flags := 64; a_data := ABin [2; 2; 0; 1; 17; 112; 0; 0; 253; 233] |};
+    {| a_code := 7; a_flags := 192; a_data := ABin [0; 1; 17; 112; 192; 0; 2; 9] |};
+    {| a_code := 222; a_flags := 192; a_data := AOpaque (pat_bytes 3900 1) |} ].
+
+Example ex_session : two_byte ex_codec = true /\ max_len ex_codec = 4096 /\ addpath_for ex_codec F_IPV6 = true
+                     /\ legacy ex_codec F_IPV4 = true /\ legacy ex_codec F_IPV6 = false.
+Proof. vm_compute. repeat split; reflexivity. Qed.
+
+Example ex_hyps : Forall attr_wf ex_attrs /\ code_not 3 ex_attrs /\ code_not 14 ex_attrs /\ fam_ok F_IPV4 /\ fam_ok F_IPV6
+                  /\ Forall (plain (maxbits_of F_IPV4)) (bulk 6 40 0) /\ Forall (plain (maxbits_of F_IPV6)) (bulk 1 700 5)
+                  /\ nh_representable ex_codec F_IPV4 [192; 0; 2; 1].
+Proof.
+  split; [repeat constructor|]. split; [repeat constructor; cbn [a_code]; discriminate|]. split; [repeat constructor; cbn [a_code]; discriminate|].
+  split; [split; [reflexivity | vm_compute; reflexivity]|]. split; [split; [reflexivity | vm_compute; reflexivity]|].
+  split; [apply plain_all; vm_compute; reflexivity|]. split; [apply plain_all; vm_compute; reflexivity|].
+  vm_compute. reflexivity.
+Qed.
+
+(* 3900 bytes of attributes leave room for a few prefixes per frame: the 40 entries need several frames *)
+Example ex_reach_split :
+  exists frames, encode_to Debug ex_codec (MReach F_IPV4 (Some [192; 0; 2; 1]) ex_attrs (bulk 6 40 0)) = Ok frames
+                 /\ (2 <= length frames)%nat.
+Proof. eexists. split; [vm_compute; reflexivity | cbn; lia]. Qed.
+
+Example ex_reach_wire_attrs :
+  exists ws, wire_attrs true ex_attrs = Ok ws /\ length ws = 6%nat.
+Proof. eexists. split; [vm_compute; reflexivity | reflexivity]. Qed.
+
+Example ex_unreach_split :
+  exists frames, encode_to Release ex_codec (MUnreach F_IPV6 (bulk 1 700 5)) = Ok frames /\ (2 <= length frames)%nat.
+Proof. eexists. split; [vm_compute; reflexivity | cbn; lia]. Qed.
+
+Definition ex_caps : list cap :=
+  [CMultiProtocol F_IPV4; CMultiProtocol F_IPV6; CExtNexthop [(F_IPV4, 2)]; CGR 4 120 [(F_IPV4, 128); (F_IPV6, 0)];
+   CFourOctet 4200000001; CAddPath [(F_IPV4, 3)]; CLLGR [(F_IPV4, 0, 86400)]; CFqdn [82; 49] [101; 120];
+   CUnknown 99 [1; 2; 3]; CExtMessage].
+Example ex_open : Forall cap_wf ex_caps /\
+  exists fr, encode_to Debug ex_codec (MOpen 4200000001 90 167772161 ex_caps) = Ok [fr].
+Proof.
+  split.
+  - repeat constructor; vm_compute; reflexivity.
+  - eexists. vm_compute. reflexivity.
+Qed.
+
+(* what the fix: commits changed: these used to produce an over-long frame / a malformed OPEN *)
+Example ex_attrs_leave_no_room :
+  encode_to Debug ex_codec (MReach F_IPV4 (Some [192; 0; 2; 1])
+     [ {| a_code := 222; a_flags := 192; a_data := AOpaque (pat_bytes 4070 1) |} ] (bulk 6 3 0)) = Fail.
+Proof. vm_compute. reflexivity. Qed.
+Example ex_open_too_long :
+  encode_to Release ex_codec (MOpen 65001 90 167772161 (repeat (CMultiProtocol F_IPV4) 43)) = Fail.
+Proof. vm_compute. reflexivity. Qed.
+
+Example ex_as4 :
+  exists w, attrs_2byte {| a_code := 2; a_flags := 64; a_data := ABin [2; 2; 0; 1; 17; 112; 0; 0; 253; 233] |} = Ok w
+            /\ length w = 2%nat.
+Proof. eexists. split; [vm_compute; reflexivity | reflexivity]. Qed.
